@@ -699,6 +699,86 @@ func main() {
 			t.Outcome("same-as-fresh")
 		})
 
+		// The caller's continuation handler fails on a fragment (the last one, or an earlier one)
+		// of a message; the caller drains or discards what is left and reads on: from the next
+		// message on the reader is as good as new.
+		r.Part("E7c-Reader-after-a-failed-continuation-handler", func(t *explore.T) {
+			errHandler := fmt.Errorf("continuation handler says no")
+			consume := func(rd *wsutil.Reader, max int) string {
+				var b strings.Builder
+				for i := 0; i < max; i++ {
+					h, err := rd.NextFrame()
+					if err != nil {
+						fmt.Fprintf(&b, "NextFrame:%v", err)
+						break
+					}
+					p, err := io.ReadAll(rd)
+					fmt.Fprintf(&b, "[op=%x %x err=%v]", byte(h.OpCode), p, err)
+					if err != nil {
+						break
+					}
+				}
+				return b.String()
+			}
+			for _, side := range []streams.Side{streams.Server, streams.Client} {
+				var probes [][]streams.Frame
+				streams.Valid(streams.Opts{Depth: 2, Side: side}, func(fr []streams.Frame) {
+					probes = append(probes, append([]streams.Frame{}, fr...))
+				})
+				for _, failAt := range []string{"final-fragment", "middle-fragment"} {
+					for _, how := range []string{"drain-with-Read", "Discard"} {
+						for _, skipCheck := range []bool{false, true} {
+							side, failAt, how, skipCheck := side, failAt, how, skipCheck
+							t.DoN(int64(len(probes)), func() string {
+								return fmt.Sprintf("%s Text-(a) Cont-() Cont(), handler fails on the %s, caller %s (SkipHeaderCheck=%v); then every valid stream of depth<=2", side, failAt, how, skipCheck)
+							}, func() *explore.Fail {
+								mk := func(i int, op byte, fin bool, p string) []byte {
+									return streams.Frame{H: refmodel.Hdr{Fin: fin, Op: op, Masked: side == streams.Server, Mask: streams.Masks[i%3]}, Payload: []byte(p)}.Wire()
+								}
+								// continuation fragments are empty, so that giving up inside one loses no position
+								hist := append(append(mk(0, 1, false, "a"), mk(1, 0, false, "")...), mk(2, 0, true, "")...)
+								for _, q := range probes {
+									qd, _ := streams.Wire(q)
+									rd := &wsutil.Reader{Source: env.NewSrc(append(append([]byte{}, hist...), qd...)), State: drivers.State(side), SkipHeaderCheck: skipCheck}
+									calls := 0
+									rd.OnContinuation = func(h ws.Header, r io.Reader) error {
+										calls++
+										if (failAt == "final-fragment" && h.Fin && calls == 2) || (failAt == "middle-fragment" && calls == 1) {
+											return errHandler
+										}
+										return nil
+									}
+									if _, err := rd.NextFrame(); err != nil {
+										return explore.Failf("harness-history", "%v", err)
+									}
+									for i := 0; i < 5; i++ {
+										var err error
+										if how == "Discard" {
+											err = rd.Discard()
+										} else {
+											_, err = io.ReadAll(rd)
+										}
+										if err != errHandler {
+											break
+										}
+									}
+									rd.OnContinuation = nil
+									got := consume(rd, len(q)+1)
+									fresh := &wsutil.Reader{Source: env.NewSrc(qd), State: drivers.State(side), SkipHeaderCheck: skipCheck}
+									want := consume(fresh, len(q)+1)
+									if got != want {
+										return explore.Failf("Reader-after-failed-continuation-handler-differs-from-fresh:"+failAt, "probe [%s]\nafter history: %s\nfresh reader:  %s", streams.Describe(q), got, want)
+									}
+								}
+								return nil
+							})
+						}
+					}
+				}
+			}
+			t.Outcome("same-as-fresh")
+		})
+
 		r.Part("E7-Reader-consecutive-messages", func(t *explore.T) {
 			depth := t.Pick(3, 4)
 			probes := func(side streams.Side) [][]streams.Frame {
